@@ -12,6 +12,8 @@ def run(ctx):
     panics.rule_P_COUPLE(ctx)
     panics.rule_P_CALLER(ctx)
     panics.rule_P_VALID(ctx, reach, 12)
+    import maps
+    maps.rule_U_CHARS(ctx)
     T = tables.Tables(ctx)
     tables.rule_T_DISJOINT(ctx, T)
     tables.rule_T_NONEMPTY(ctx, T)
